@@ -6,6 +6,20 @@
   (shape `()` ⇒ quantity; more than one element ⇒ not a quantity); `Res.Strict` the sharper rule
   the dedicated code paths implement (quantity ⇔ shape `()`).  All statements quantify over every
   shape (lists of naturals of any length) and every operand class.
+  What kind of evidence each statement is:
+  * `wrapUp_strict`, `unitMul_strict`, `handler_rule_strict`, `quantityNew_size_le_one`,
+    `arrayNew_of_array_is_view`, `arrayNew_class`, `getitem_keeps_units_name`, `getitem_ok` are case
+    analyses / unfoldings of the hand transcription in `ResultClass.lean` (e.g. `sharesInput := true`
+    and `units := p.md.units` are written into the model): they say what the *model* does for all
+    inputs and make the transcription's consequences explicit.  That unyt behaves like the model is
+    NOT shown by them; it rests on the probe table (`accessor_table`) and the correspondence
+    sections S2–S7 of `harness/c16_ops.py`.
+  * Independent content sits in the shape algebra and in the statements that combine it with the
+    class decisions (`index_scalar_needs_integers`, `reduction_scalar_iff`, `squeeze_strict`,
+    `C16_view_partial`, `getitem_ints_class`, `ufunc_wrap_class_iff_shape` over all methods,
+    `list_coercion_values_converted`).
+  * `ufuncResult` models calls without `out=`; with `out=` the same wrap-up runs on a view of the
+    output buffer (exercised by a few `out=` templates of the S7 catalogue, not by a theorem).
 -/
 import UnytModel.ResultClass
 import UnytModel.Generated.C16Tables
@@ -168,8 +182,8 @@ theorem ufunc_no_multielement_quantity (c : UfuncCall) (r : Res) (h : ufuncResul
           · cases h
           · exact wrapUp_no_multielement_quantity _ _ _ r h hq
 
-/-- **C16 for ufuncs, full strength** — for every ufunc invocation, on operands of any class and
-    shape, every unyt object returned satisfies the property -/
+/-- **C16 for ufuncs, full strength** — for every ufunc invocation without `out=`, on operands of
+    any class and shape, every unyt object returned satisfies the property -/
 theorem ufunc_result_good (c : UfuncCall) (r : Res)
     (h : ufuncResult c = .ok r) (hun : r.cls.isUnyt = true) : r.Good := by
   cases hu : c.unitNone with
@@ -242,19 +256,38 @@ theorem handler_alwaysArray_good_iff (sh : Shape) :
   · intro h hs; have := h.1 hs; simp at this
   · intro hs; exact ⟨fun h' => absurd h' hs, fun _ => trivial⟩
 
-/-- every rule of the regenerated handler table is acceptable: built by shape, or an
-    unconditional `unyt_array` for a function that cannot return a 0-d result -/
+/-- every rule of the regenerated handler table is acceptable: the class is decided by shape
+    (`timesUnit`, `byNdim`), nothing is returned (`noValue`), an unconditional `unyt_array` only
+    for a function that cannot return a 0-d result, and the three kinds in which the handler does
+    not decide a class itself only for the handlers listed by name in `Ref` -/
 def handlerRowOk (row : String × List HRule) : Bool :=
   row.2.all fun r =>
     match r with
-    | .timesUnit | .byNdim | .other => true
+    | .timesUnit | .byNdim | .noValue => true
     | .alwaysArray => Ref.c16NeverZeroD.contains row.1
-    | .alwaysQuantity | .unknown => false
+    | .npImpl => Ref.c16BareResultHandlers.contains row.1
+    | .redispatch => Ref.c16DelegatedHandlers.contains row.1
+    | .unknown => Ref.c16UnclassifiedHandlers.contains row.1
+    | .alwaysQuantity => false
 
-/-- **handler table (P-tab), full** — every return statement of every handler in
-    `_HANDLED_FUNCTIONS` (regenerated from the source on every run) decides the class by shape, or
-    belongs to a function that cannot return a 0-d result; no exclusions -/
+/-- **handler table (P-tab)** — every `return` of every handler in `_HANDLED_FUNCTIONS`
+    (regenerated from the source via `ast` on every run) is one of: class decided by shape; no
+    value; unconditional `unyt_array` for a never-0-d function; or a bare NumPy result /
+    delegation / unclassified string-builder of a handler *listed by name* in `Ref/C16.lean`.
+    What it does NOT show: that the translator's syntactic classes mean what their names say —
+    that is the S7 correspondence (class predicted from the rule vs the real call) -/
 theorem C16_handlers : Generated.c16HandlerRules.all handlerRowOk = true := by decide +kernel
+
+/-- the name lists cannot outlive their reason: every listed handler still has a return of the
+    kind it is listed for -/
+theorem C16_handler_lists_live :
+    (Ref.c16BareResultHandlers.all fun n =>
+      (Generated.c16HandlerRules.find? (·.1 == n)).any (·.2.contains .npImpl)) = true ∧
+    (Ref.c16DelegatedHandlers.all fun n =>
+      (Generated.c16HandlerRules.find? (·.1 == n)).any (·.2.contains .redispatch)) = true ∧
+    (Ref.c16UnclassifiedHandlers.all fun n =>
+      (Generated.c16HandlerRules.find? (·.1 == n)).any (·.2.contains .unknown)) = true := by
+  refine ⟨by decide +kernel, by decide +kernel, by decide +kernel⟩
 
 /-! ## 3. accessors: views and copies -/
 
@@ -317,8 +350,9 @@ theorem getitem_total (nu : U) (p : Obj U) (ixs : List Ix) (s' : Shape)
     · exact ⟨_, rfl⟩
     · split <;> exact ⟨_, rfl⟩
 
-/-- **getitem_keeps_units_name** — for every parent (class, shape, metadata) and every index,
-    the item carries the parent's units and name -/
+/-- **getitem_keeps_units_name** — in the model, for every parent (class, shape, metadata) and every
+    index, the item carries the parent's units and name through every branch (`__array_finalize__`,
+    the quantity re-wrap with `name=self.name`, the `view(unyt_array)`); that unyt does so is S2/S3 -/
 theorem getitem_keeps_units_name (nu : U) (p : Obj U) (ixs : List Ix) (r : Obj U)
     (h : getitem nu p ixs = .ok r) : r.md.units = p.md.units ∧ r.md.name = p.md.name := by
   have := (getitem_ok nu p ixs r h).2.1
@@ -411,8 +445,9 @@ theorem quantityNew_refuses_arrays (cls : PyCls) (s : Shape) (bp : Bool) (h : si
     quantityNew cls (.ndarray s) bp = .error .RuntimeError := by
   cases bp <;> simp [quantityNew, NewInput.isNumeric, NewInput.asarray, h]
 
-/-- **constructor from an ndarray is a view** of that array, with the requested class and the
-    array's shape, with or without `bypass_validation`; so is the constructor from a unyt object -/
+/-- the model's constructor from an ndarray / unyt object is a view with the requested class and the
+    array's shape, with or without `bypass_validation` (an unfolding of `arrayNew`; that unyt does so
+    is the `accessor_table` row `unyt_array(ndarray…)` and the S4/S5 `np.shares_memory` checks) -/
 theorem arrayNew_of_array_is_view (cls : PyCls) (s : Shape) (bp : Bool) (c0 : PyCls) :
     arrayNew cls (.ndarray s) bp = .ok ⟨⟨cls, s⟩, true⟩ ∧
     arrayNew cls (.unyt c0 s) bp = .ok ⟨⟨cls, s⟩, true⟩ := by
@@ -431,10 +466,11 @@ def viewGuard (cls : PyCls) (op : ViewOp) : Bool :=
   if cls.isQuantity then
     match op with
     | .repeat_ _ => false
+    | .reshape t isList => !(t == [] && isList)   -- `q.reshape([])`: `[] == ()` is False
     | _ => true
   else
     match op with
-    | .reshape t => t != []
+    | .reshape t _ => t != []
     | _ => true
 
 /-- the full statement: every view-making method of a well-formed object (quantity ⇔ 0-d)
@@ -453,7 +489,7 @@ theorem squeeze_strict (cls : PyCls) (s : Shape) (op : ViewOp) (r : Res)
   | true =>
     have hs : s = [] := hwf.1 hq
     subst hs
-    have hnr : ∀ t, op ≠ .reshape t := by rcases hop with rfl | ⟨ax, rfl⟩ <;> intro t e <;> cases e
+    have hnr : ∀ t l, op ≠ .reshape t l := by rcases hop with rfl | ⟨ax, rfl⟩ <;> intro t l e <;> cases e
     have hrep : ∀ n, op ≠ .repeat_ n := by rcases hop with rfl | ⟨ax, rfl⟩ <;> intro t e <;> cases e
     have hs' : s' = [] := by
       rcases hop with rfl | ⟨ax, rfl⟩
@@ -477,7 +513,8 @@ theorem squeeze_strict (cls : PyCls) (s : Shape) (op : ViewOp) (r : Res)
       rw [hrc, hq] at h''; cases h''
 
 /-- **C16 for the view-making methods, partial** — for every unyt class, every shape and every
-    method outside the guard's excluded region (`reshape(())` of arrays, `repeat` of quantities),
+    method outside the guard's excluded region (`reshape(())`/`reshape([])` of arrays,
+    `reshape([])` of quantities, `repeat` of quantities),
     the result meets the property -/
 theorem C16_view_partial (cls : PyCls) (s : Shape) (op : ViewOp) (r : Res)
     (hu : cls.isUnyt = true) (hwf : Res.Strict ⟨cls, s⟩) (hg : viewGuard cls op = true)
@@ -491,13 +528,18 @@ theorem C16_view_partial (cls : PyCls) (s : Shape) (op : ViewOp) (r : Res)
     have hs : s = [] := hwf.1 hq
     subst hs
     simp only [viewGuard, hq, if_true] at hg
-    by_cases hre : ∃ t, op = .reshape t
-    · obtain ⟨t, rfl⟩ := hre
+    by_cases hre : ∃ t l, op = .reshape t l
+    · obtain ⟨t, l, rfl⟩ := hre
       simp only [viewOp, hq, if_true] at h
       by_cases ht : t = []
-      · simp [ht, quantityReshape, size] at h; subst h
+      · -- the guard leaves only the tuple form `q.reshape(())`
+        have hl : l = false := by
+          cases l with
+          | false => rfl
+          | true => simp [ht] at hg
+        simp [ht, hl, quantityReshape, size] at h; subst h
         exact ⟨fun _ => hq, fun hsz => by simp [size] at hsz⟩
-      · simp only [ht, if_false, quantityReshape] at h
+      · simp only [ht, false_and, if_false, quantityReshape] at h
         cases hr : reshape [] t with
         | error e => simp [hr] at h
         | ok s' =>
@@ -506,7 +548,7 @@ theorem C16_view_partial (cls : PyCls) (s : Shape) (op : ViewOp) (r : Res)
           refine ⟨fun hnil => ?_, fun _ => uarray_not_quantity⟩
           simp only at hnil; rw [hnil] at hl; simp at hl
           exact absurd (List.length_eq_zero_iff.1 hl.symm) ht
-    · have hnr : ∀ t, op ≠ .reshape t := fun t e => hre ⟨t, e⟩
+    · have hnr : ∀ t l, op ≠ .reshape t l := fun t l e => hre ⟨t, l, e⟩
       by_cases hex : ∃ k, op = .expandDims k
       · obtain ⟨k, rfl⟩ := hex
         obtain ⟨hne, hc⟩ := viewOp_expandDims cls [] k r h
@@ -527,13 +569,13 @@ theorem C16_view_partial (cls : PyCls) (s : Shape) (op : ViewOp) (r : Res)
     simp only [viewGuard, hq, Bool.false_eq_true, if_false] at hg
     -- the class is preserved and is not a quantity class; only the shape matters
     have key : r.cls = cls ∧ ∃ s', viewShape s op = .ok s' ∧ r.shape = s' := by
-      by_cases hre : ∃ t, op = .reshape t
-      · obtain ⟨t, rfl⟩ := hre
+      by_cases hre : ∃ t l, op = .reshape t l
+      · obtain ⟨t, l, rfl⟩ := hre
         simp only [viewOp, hq, Bool.false_eq_true, if_false] at h
         cases hr : reshape s t with
         | error e => simp [hr] at h
         | ok s' => simp [hr] at h; subst h; exact ⟨rfl, s', by simp [viewShape, hr], rfl⟩
-      · have hnr : ∀ t, op ≠ .reshape t := fun t e => hre ⟨t, e⟩
+      · have hnr : ∀ t l, op ≠ .reshape t l := fun t l e => hre ⟨t, l, e⟩
         by_cases hex : ∃ k, op = .expandDims k
         · obtain ⟨k, rfl⟩ := hex
           simp only [viewOp, hq, Bool.false_eq_true, if_false] at h
@@ -551,15 +593,21 @@ theorem C16_view_partial (cls : PyCls) (s : Shape) (op : ViewOp) (r : Res)
       cases op <;> simp_all
     refine ⟨fun hnil => absurd (hrs ▸ hnil) hne, fun _ => by rw [hc]; exact hq⟩
 
-/-- the excluded region is real: `x[:1].reshape(())` is a 0-d `unyt_array`, `q.repeat(2)` a
-    2-element `unyt_quantity` -/
+/-- the excluded region is real: `x[:1].reshape(())` and `q.reshape([])` (`[] == ()` is False in
+    the override) are 0-d `unyt_array`s, `q.repeat(2)` a 2-element `unyt_quantity` -/
 theorem C16_view_counterexample :
     ¬ C16_view_full ∧
-    viewOp .uarray [1] (.reshape []) = .ok ⟨.uarray, []⟩ ∧
+    viewOp .uarray [1] (.reshape [] false) = .ok ⟨.uarray, []⟩ ∧
+    viewOp .uquantity [] (.reshape [] true) = .ok ⟨.uarray, []⟩ ∧
     viewOp .uquantity [] (.repeat_ 2) = .ok ⟨.uquantity, [2]⟩ := by
-  refine ⟨fun h => ?_, rfl, rfl⟩
-  have := h .uarray [1] (.reshape []) ⟨.uarray, []⟩ (by decide) (by decide) rfl
+  refine ⟨fun h => ?_, rfl, rfl, rfl⟩
+  have := h .uquantity [] (.reshape [] true) ⟨.uarray, []⟩ (by decide) (by decide) rfl
   revert this; decide
+
+/-- the guard excludes exactly these: each excluded (class kind, method) pair has a witness above -/
+example : viewGuard .uquantity (.reshape [] true) = false ∧ viewGuard .uquantity (.reshape [] false) = true ∧
+    viewGuard .uarray (.reshape [] false) = false ∧ viewGuard .uarray (.reshape [] true) = false ∧
+    viewGuard .uquantity (.repeat_ 2) = false ∧ viewGuard .uarray .squeeze = true := by decide
 
 /-- `unyt_quantity.reshape` to any non-empty target shape is a `unyt_array` (the override of
     array.py:2296), to `()` it stays a quantity -/
@@ -576,7 +624,8 @@ theorem quantityReshape_class (cls : PyCls) (s : Shape) (t : List Int) (r : Res)
     simp only at hnil; rw [hnil] at this; simp at this
     exact ht (List.length_eq_zero_iff.1 this.symm)
 
-example : viewOp .uquantity [] (.reshape [1, 1]) = .ok ⟨.uarray, [1, 1]⟩ := rfl
+example : viewOp .uquantity [] (.reshape [1, 1] false) = .ok ⟨.uarray, [1, 1]⟩ := rfl
+example : viewOp .uquantity [] (.reshape [] false) = .ok ⟨.uquantity, []⟩ := rfl
 example : viewOp .uarray [2, 3] .transpose = .ok ⟨.uarray, [3, 2]⟩ := rfl
 example : viewOp .uarray [1, 1] .squeeze = .ok ⟨.uquantity, []⟩ := rfl
 example : viewOp .uarray [1, 3] .squeeze = .ok ⟨.uarray, [3]⟩ := rfl
